@@ -631,6 +631,7 @@ func (rdb *RDB) FindClosest(key []byte, ctx *Context) ([]byte, []byte, error) {
 	iterEntry := rdb.iteratorPool.get()
 	iter := iterEntry.iterator
 	defer func() { rdb.iteratorPool.put(iterEntry) }()
+	verifhook.Yield("rdb.findclosest.borrowed")
 
 	iter.SeekForPrev(key)
 	if !iter.IsValid() {
